@@ -6,6 +6,8 @@ V = os.path.dirname(os.path.dirname(os.path.abspath(__file__)))
 MISSED_R2 = {'C02-A2', 'C02-B2', 'C03-A2', 'C04-A2', 'C05-A2', 'C06-B2', 'C07-A2', 'C08-B2', 'C09-B2', 'C10-A2', 'C10-B2', 'C11-A2', 'C11-B2',
              'C12-B2', 'C14-A2', 'C14-B2', 'C15-B2', 'C16-A2', 'C16-B2', 'C20-A2'}
 
+MISSED_R3 = {'C02-B3', 'C05-B3', 'C06-A3', 'C06-B3', 'C11-B3', 'C14-A3', 'C15-B3', 'C16-A3', 'C16-B3'}
+
 
 def parts_block():
     out = []
@@ -37,11 +39,11 @@ def seeds_block():
             m = re.search(r'clauses \(part:clause\): (.*)', t)
             rc = re.search(r'exit=(\d+)', t)
             det = '%s quick, exit %s: %s' % (sid[:3], rc.group(1) if rc else '?', m.group(1).strip() if m else '')
-        missed = r1.get(sid, {}).get('missed_first') or sid in MISSED_R2
+        missed = r1.get(sid, {}).get('missed_first') or sid in MISSED_R2 or sid in MISSED_R3
         note = ''
         if sid in r1 and '(added after' in r1[sid]['detected_by']:
             note = ' (check extended after this change was first missed)'
-        elif sid in MISSED_R2:
+        elif sid in MISSED_R2 or sid in MISSED_R3:
             note = ' (check extended after this change was first missed)'
         out.append('| %s%s | %s | %s%s |' % (sid, '+' if missed else '', meta['needs_to_manifest'][:330], det, note))
     return '\n'.join(out)
